@@ -1,4 +1,5 @@
 import Anysystem.Props.C06
+import Anysystem.Proofs.SimStepThms
 #print axioms Anysystem.Sim.nextEvent_some
 #print axioms Anysystem.Sim.nextEvent_none
 #print axioms Anysystem.Sim.addEvent_time
@@ -10,3 +11,6 @@ import Anysystem.Props.C06
 #print axioms Anysystem.Sim.stepUntilTime_clock
 #print axioms Anysystem.Sim.send_copies
 #print axioms Anysystem.Sim.send_same_node
+#print axioms Anysystem.Sim.stepUntilNoEvents_spec
+#print axioms Anysystem.Sim.step_false_events
+#print axioms Anysystem.Sim.stepUntilLocalMax_immediate
